@@ -8,7 +8,7 @@
    Tick may fire at any moment (the Go ticker fires every IdleTimeout/2), and Stop's 5 s timer is the StopTimeout
    step, enabled at any moment; C17_stop is about a Stop that returned nil, C17_stop_partial about the others. *)
 From Coq Require Import List NArith ZArith Bool.
-From Verif Require Import Model.ConnLTS Proofs.ConnProofs.
+From Verif Require Import Gen.Facts Model.ConnLTS Proofs.ConnProofs.
 Import ListNotations.
 Open Scope N_scope.
 
@@ -81,6 +81,16 @@ Theorem C17_close_history : forall ops reps,
   n_handles n = [] /\ n_attr n = [] /\ n_dir n = [] /\ n_server n = false /\ n_pool n = false.
 Proof. exact nfs_history_lemma. Qed.
 
+(* what the model assumes about the source, re-read from /repo on every run (harness/tools/astfacts/x_lts.go):
+   registerConnection takes connMutex, defers its release, then tests connCount >= MaxConnections, inserts into
+   activeConns and increments connCount (one critical section = the Register step); unregisterConnection runs
+   "if still registered { delete; connCount-- }" inside unregisterOnce.Do and decrements nowhere else; Stop performs
+   cancel, listener.Close, closeAllConnections, wg.Wait in this order and gives up after 5 s *)
+Theorem C17_facts :
+  f_lts_register_order = [1; 2; 3; 4; 5]%Z /\ f_lts_unregister_guarded = true /\
+  f_lts_stop_order = [1; 2; 3; 4]%Z /\ f_lts_stop_timeout_s = 5%Z.
+Proof. repeat split; vm_compute; reflexivity. Qed.
+
 (* ---------- non-vacuity ---------- *)
 (* MaxConnections 1, IdleTimeout 50: connection 1 is served, connection 2 is refused at the limit, connection 3 fails
    the IP filter; 1 goes idle, the reaper and the connection goroutine race on unregisterConnection (the goroutine
@@ -129,6 +139,21 @@ Example C17_accept_race :
   end.
 Proof. vm_compute. repeat split; discriminate. Qed.
 
+(* hypotheses of C17_reap_tick (a tick about to complete), C17_stop_partial (a Stop that is waiting) and
+   C17_stop_twice (a Stop that returned nil, a fresh caller) *)
+Example C17_more_nontrivial :
+  (match run (init 1 50) [Accept 1 true; Filter; Register; Spawn; Advance 100; Tick; RClose; UnregReaper; UnregReaper; UnregReaper] with
+   | Some s => reaper s = RWork 100 [] None /\ step s RTickDone <> None
+   | None => False end) /\
+  (match run (init 5 0) [Accept 1 true; Filter; Register; Spawn; StopCall 9; StopCancel 9; StopCloseL 9; StopCollect 9;
+                         StopClose 9; UnregStop 9; UnregStop 9; UnregStop 9; StopCollected 9] with
+   | Some s => stops s 9 = Some (SWaiting [1]) /\ wg s = 2
+   | None => False end) /\
+  (match demo_state with
+   | Some s => stops s 9 = Some (SRetOk []) /\ stops s 10 = None
+   | None => False end).
+Proof. vm_compute. repeat split; discriminate. Qed.
+
 Print Assumptions C17_bounded.
 Print Assumptions C17_once.
 Print Assumptions C17_reap.
@@ -139,3 +164,4 @@ Print Assumptions C17_stop_twice.
 Print Assumptions C17_close.
 Print Assumptions C17_unexport.
 Print Assumptions C17_close_history.
+Print Assumptions C17_facts.
